@@ -17,6 +17,8 @@ Requests:
                         equal `interp`, `s` = originals of I spell W; (`g = 2`: S out of fuel)
 * `runs P | W | I | W | I …` → one `mgs` triple (as a 3-digit word) per word
 * `runn`, `runsn`      → the same for `RunOptions { disable_left_boundary: true }` (`runNoLB`, `seqNoLB`)
+* `runx nolb ov …`, `runsx nolb ov …` → the same for any `RunOptions` (`runOpt`; S = `interp` on
+                        `withRb p (effRb p ov)`); `ov = -1` = no override
 -/
 open C05 Proto
 
@@ -246,9 +248,13 @@ def runNoLBc (c : Cache) (p : Program) : List Nat → List Item
   | [] => []
   | x :: w => goL c.tbl p.rb w (some x) true none
 
-def verdict (lb : Bool) (p : Program) (c : Cache) (w : List Nat) (items : List Item) : Int × List Item × Option (List Glyph) :=
-  let m := if lb then runCompiled c.tbl p.rb w else runNoLBc c p w
-  let s := interp p (runFuel c.k c.acyclic w) (if lb then seqOf p w else seqNoLB p w)
+/-- `runOpt p (!lb) ov w` over the cached table, and S = `interp` on the program whose right
+boundary is the effective one (`withRb p (effRb p ov)`). -/
+def verdict (lb : Bool) (ov : Option Nat) (p : Program) (c : Cache) (w : List Nat) (items : List Item) : Int × List Item × Option (List Glyph) :=
+  let rb := effRb p ov
+  let p' := withRb p rb
+  let m := if lb then runCompiled c.tbl rb w else runNoLBc c p' w
+  let s := interp p' (runFuel c.k c.acyclic w) (if lb then seqOf p' w else seqNoLB p' w)
   let mOk := b2i (m == items)
   let gOk : Int := match s with | none => 2 | some g => b2i (g == glyphs items)
   let sOk := b2i (originals items == w)
@@ -263,24 +269,24 @@ def decWI (a b : List String) : Option (List Nat × List Item) := do
     if rest.isEmpty && w.2.isEmpty then pure (w.1.map Int.toNat, items) else none
   | [] => none
 
-def handleRuns (lb : Bool) (p : Program) : List (List String) → List String
+def handleRuns (lb : Bool) (ov : Option Nat) (p : Program) : List (List String) → List String
   | a :: b :: t =>
     let c := mkCache p
     let rec go : List (List String) → List String
       | a :: b :: t =>
         (match decWI a b with
-         | some (w, items) => toString (verdict lb p c w items).1
+         | some (w, items) => toString (verdict lb ov p c w items).1
          | none => "bad") :: go t
       | _ => []
     go (a :: b :: t)
   | _ => []
 
-def handleRun (lb : Bool) (ws : List String) : String :=
+def handleRun (lb : Bool) (ov : Option Nat) (ws : List String) : String :=
     match splitBar ws with
     | [pw, a, b] =>
       match ints? pw >>= decProg, decWI a b with
       | some (p, []), some (w, items) =>
-        let v := verdict lb p (mkCache p) w items
+        let v := verdict lb ov p (mkCache p) w items
         let m := v.1 / 100; let g := v.1 / 10 % 10; let s := v.1 % 10
         let sg := match v.2.2 with
           | none => "none"
@@ -289,11 +295,11 @@ def handleRun (lb : Bool) (ws : List String) : String :=
       | _, _ => "bad-request"
     | _ => "bad-request"
 
-def handleRunsReq (lb : Bool) (ws : List String) : String :=
+def handleRunsReq (lb : Bool) (ov : Option Nat) (ws : List String) : String :=
     match splitBar ws with
     | pw :: rest =>
       match ints? pw >>= decProg with
-      | some (p, []) => " ".intercalate (handleRuns lb p rest)
+      | some (p, []) => " ".intercalate (handleRuns lb ov p rest)
       | _ => "bad-request"
     | _ => "bad-request"
 
@@ -303,10 +309,18 @@ def handle (line : String) : String :=
     match ints? ws >>= decProg with
     | some (p, []) => handleTab p
     | _ => "bad-request"
-  | "run" :: ws => handleRun true ws
-  | "runn" :: ws => handleRun false ws
-  | "runs" :: ws => handleRunsReq true ws
-  | "runsn" :: ws => handleRunsReq false ws
+  | "run" :: ws => handleRun true none ws
+  | "runn" :: ws => handleRun false none ws
+  | "runs" :: ws => handleRunsReq true none ws
+  | "runsn" :: ws => handleRunsReq false none ws
+  | "runx" :: nolb :: ov :: ws =>
+    match nolb.toInt?, ov.toInt? with
+    | some a, some b => handleRun (a == 0) (optNat b) ws
+    | _, _ => "bad-request"
+  | "runsx" :: nolb :: ov :: ws =>
+    match nolb.toInt?, ov.toInt? with
+    | some a, some b => handleRunsReq (a == 0) (optNat b) ws
+    | _, _ => "bad-request"
   | _ => "bad-request"
 
 end DrvC05
